@@ -43,7 +43,9 @@ RULE = ("seeded random pairs of (runtime module, stubs) sources built jointly pe
         "without a runtime member of that name, runtime functions too may exist as @overload signatures only; classes derive (1-2 bases) from class expressions visible per Python scoping "
         "- earlier module classes and their nested classes (dotted), earlier classes of the same class body, classes imported "
         "from a generated un-stubbed module pkg._impl (B1, B2(B1) with members named from every nested pool) - or from an "
-        "undefined name; a runtime class that derives declares fewer names itself, so its stubs name inherited members; two "
+        "undefined name; a runtime class that derives declares fewer names itself, so its stubs name inherited members; per "
+        "loader placement two further request spellings drawn from {dotted sub-module, dotted object path, Path of directory, "
+        "Path of file, relative path} with a random discovery order; two "
         "pairs (package __init__ and a sub-module) per case, placed as .pyi inside the package, as a -stubs package, as "
         "top-level sibling .pyi, and merged through the API; both discovery orders each. distinct = digest of placement + "
         "sources; non-trivial = >=1 same-named pair of mismatched kinds and >=1 class nested in a class")
@@ -55,7 +57,11 @@ LEVEL_TEXT = ("Each generated pair is written to disk in every placement and loa
               "no exception; the `overloads` dict of every stub-only class - at any depth, in top-level modules, which the loader "
               "merges twice, and in sub-modules - must hold exactly the @overload-only functions of the stub source, and a runtime "
               "scope keeps its own), through the API the same pair is merged a second time and judged again (idempotence: same "
-              "expectation, same canonical JSON), the un-stubbed module pkg._impl that holds imported base classes is compared the same way with "
+              "expectation, same canonical JSON), every loader placement is additionally loaded through other spellings of the "
+              "request (dotted sub-module, dotted path of an object of the merged tree incl. stub-only and nested ones, absolute "
+              "Path of the package directory / of a .py or .pyi file, the same paths relative to the working directory as str or "
+              "Path, with and without find_stubs_package) and the WHOLE package in the collection is judged by the same oracle "
+              "and must have the canonical JSON of the by-name load, the un-stubbed module pkg._impl that holds imported base classes is compared the same way with "
               "an empty stub side (a member the stubs say nothing about must not change), canonical JSON must be equal "
               "across orders, and every Alias.resolve_target call made while merge_stubs is on the stack (explicit merge in "
               "_load_package, implicit merge in set_member, direct API call) must be on a runtime-side import that has a "
@@ -73,7 +79,9 @@ REQUIRED_COUNTERS = ["placements_judged", "runtime_members_checked", "same_kind_
                      "listings_with_py_pyi_pair_runtime_first", "bystander_modules_judged", "merged_classes_inheriting_names",
                      "inherited_name_stub_overloads_only", "inherited_name_stub_member", "stub_overloads_only_no_runtime_member",
                      "stub_only_scopes_overload_dict_checked", "stub_only_overload_only_functions_checked",
-                     "runtime_overload_only_functions_checked", "modules_merged_twice_by_loader", "api_second_merges_judged"]
+                     "runtime_overload_only_functions_checked", "modules_merged_twice_by_loader", "api_second_merges_judged",
+                     "request_dotted_module_judged", "request_dotted_object_judged", "request_path_dir_judged",
+                     "request_path_file_judged", "request_relative_path_judged", "request_forms_compared"]
 EXHAUSTIVE = {"quick": False, "thorough": False}
 ASSUMPTIONS = ["the alias monitor's window is the dynamic extent of merge_stubs (every reference to it in merger, loader and mixins "
                "is wrapped); what the loader resolves outside of merging (expand_exports / expand_wildcards) is not this property",
@@ -89,6 +97,8 @@ ASSUMPTIONS = ["the alias monitor's window is the dynamic extent of merge_stubs 
                "(whether those land there is not decided); empty lists the visitor leaves behind are ignored",
                "the merge monitor counts merge_stubs calls per module path during a load; 'merged twice' in the classifier of "
                "C19-second-merge-empties-overloads-of-stub-only-class is that observation (or the explicit second API call)",
+               "a path into the <pkg>-stubs directory itself denotes a package named '<pkg>-stubs' and is not a request for the "
+               "runtime package: not generated",
                "the inheritance counters use the oracle's own reading of the sources (Python scoping of base expressions); "
                "verdicts never depend on them",
                "flags of the children of a stub-only class (runtime=True/False) are not judged, only the member itself"]
@@ -802,21 +812,113 @@ def layout(placement: str, src: dict) -> tuple[dict[str, str], list[tuple[str, s
     return ({}, [("m0", "R0", "S0"), ("m1", "R1", "S1")])
 
 
-def load_once(placement: str, root: str, order: int, target: str):  # noqa: ANN201
-    """Returns (top module, loader-or-None). order 0: runtime file / path / argument first; 1: stubs first."""
+REQUEST_FORMS = ["dotted_module", "dotted_object", "path_dir", "path_file", "relative_path"]
+
+
+def request_spec(req: dict, root: str):  # noqa: ANN201
+    """The objspec handed to GriffeLoader.load for a request: a dotted name, an absolute Path, or a path relative to the
+    working directory (the case's root) given as str or as Path."""
+    if req["form"] in ("dotted_module", "dotted_object"):
+        return req["arg"]
+    if req["form"] in ("path_dir", "path_file"):
+        return Path(root, req["arg"])
+    return req["arg"] if req.get("as_str", True) else Path(req["arg"])
+
+
+def requested_path(req: dict) -> str:
+    """Dotted path of the object a request denotes (own rule: drop the search-path directory, the suffix and __init__)."""
+    if req["form"] in ("dotted_module", "dotted_object"):
+        return req["arg"]
+    parts = req["arg"].split("/")[1:]
+    parts[-1] = parts[-1].rsplit(".", 1)[0] if parts[-1].endswith((".py", ".pyi")) else parts[-1]
+    return ".".join(x for x in parts if x != "__init__")
+
+
+def load_once(placement: str, root: str, order: int, target: str, req: dict | None = None):  # noqa: ANN201
+    """Returns (top module, what load returned). order 0: runtime file / path / argument first; 1: stubs first.
+    req: the spelling of the request (None: the bare top-level name); whatever is requested, the whole package is loaded and
+    merged, and it is the top-level module of the collection that gets judged."""
     import griffe
 
-    if placement == "inpkg":
-        with listing.shuffled(order, 0, only_under=root, policy=stub_first_policy(bool(order))):
-            loader = griffe.GriffeLoader(search_paths=[os.path.join(root, "sp")], allow_inspection=False)
-            return loader.load("pkg"), loader
+    top_name = target or "pkg"
+    spec = top_name if req is None else request_spec(req, root)
     if placement == "stubspkg":
         paths = [os.path.join(root, "rt"), os.path.join(root, "st")]
         loader = griffe.GriffeLoader(search_paths=paths[::-1] if order else paths, allow_inspection=False)
-        return loader.load("pkg", find_stubs_package=True), loader
-    with listing.shuffled(order, 0, only_under=root, policy=stub_first_policy(bool(order))):
-        loader = griffe.GriffeLoader(search_paths=[os.path.join(root, "sp")], allow_inspection=False)
-        return loader.load(target), loader
+        ret = loader.load(spec, find_stubs_package=True)
+    else:
+        with listing.shuffled(order, 0, only_under=root, policy=stub_first_policy(bool(order))):
+            loader = griffe.GriffeLoader(search_paths=[os.path.join(root, "sp")], allow_inspection=False)
+            ret = loader.load(spec, find_stubs_package=bool(req and req.get("fsp")))
+    top = loader.modules_collection.members.get(top_name)
+    if top is None:
+        raise AssertionError(f"after load({spec!r}) the collection has no module {top_name!r}: {sorted(loader.modules_collection.members)}")
+    return top, ret
+
+
+def merged_object_paths(prefix: str, r: dict, s: dict) -> list[str]:
+    """Dotted paths of the objects the merged tree must have per the statement: runtime members and stub-only members, through
+    classes (imports are not entered)."""
+    out = []
+    for name, m in r["members"].items():
+        out.append(f"{prefix}.{name}")
+        if m["kind"] == "class":
+            sm = s["members"].get(name)
+            out += merged_object_paths(f"{prefix}.{name}", m, sm if sm is not None and sm["kind"] == "class" else EMPTY)
+    for name, m in s["members"].items():
+        if name not in r["members"]:
+            out.append(f"{prefix}.{name}")
+            if m["kind"] == "class":
+                out += merged_object_paths(f"{prefix}.{name}", m, EMPTY)
+    return out
+
+
+def gen_requests(rng: random.Random, placement: str, src: dict) -> list[dict]:
+    """Two further spellings of the request per loader placement (per target for top-level sibling modules: one each)."""
+    if placement == "api":
+        return []
+    parsed = {k: parse_source(src[k]) for k in ("R0", "S0", "R1", "S1")}
+    _files, pairs = layout(placement, src)
+    sp = "rt" if placement == "stubspkg" else "sp"
+    out = []
+
+    def one(form: str, target: str | None, objects: list[str]) -> dict | None:
+        if form == "dotted_module":
+            req = {"form": form, "arg": "pkg.mod"}
+        elif form == "dotted_object":
+            if not objects:
+                return None
+            req = {"form": form, "arg": rng.choice(objects)}
+        elif form == "path_dir":
+            req = {"form": form, "arg": f"{sp}/pkg"}
+        else:
+            exts = [".py"] if placement == "stubspkg" else [".py", ".pyi"]
+            files = [f"{sp}/{target}{e}" for e in exts] if target else \
+                [f"{sp}/pkg/{stem}{e}" for stem in ("mod", "__init__") for e in exts]
+            choices = files + ([f"{sp}/pkg"] if form == "relative_path" and not target else [])
+            req = {"form": form, "arg": rng.choice(choices)}
+            if form == "relative_path":
+                req["as_str"] = rng.random() < 0.5
+        req["order"] = rng.randint(0, 1)
+        if placement != "stubspkg":
+            req["fsp"] = rng.random() < 0.5       # searching for a -stubs package that does not exist changes nothing
+        if target:
+            req["target"] = target
+        return req
+
+    if placement == "sibling":
+        for dotted, rk, sk in pairs:
+            objects = merged_object_paths(dotted, parsed[rk], parsed[sk])
+            req = one(rng.choice(["dotted_object", "path_file", "relative_path"]), dotted, objects)
+            if req:
+                out.append(req)
+        return out
+    objects = [o for dotted, rk, sk in pairs for o in merged_object_paths(dotted, parsed[rk], parsed[sk])]
+    for form in rng.sample(REQUEST_FORMS, 2):
+        req = one(form, None, objects)
+        if req:
+            out.append(req)
+    return out
 
 
 def merge_api(src: dict, name: str, rkey: str, skey: str, order: int):  # noqa: ANN201
@@ -933,7 +1035,12 @@ def run_case(rec, case: dict) -> None:  # noqa: ANN001, C901, PLR0912, PLR0915
             targets = [None] if placement in ("inpkg", "stubspkg") else [p[0] for p in pairs]
             for target in targets:
                 dumps = []
-                for order in (0, 1):
+                # both discovery orders with the bare top-level name, then the other spellings of the request
+                runs = [(0, None), (1, None)]
+                if placement != "api":
+                    runs += [(int(q.get("order", 0)), q) for q in case.get("requests", ()) if q.get("target") == target]
+                for order, req in runs:
+                    tag = f"order {order}" + (f", requested as {req['form']} {req['arg']!r}" if req else "")
                     _WINDOW = []
                     del _MERGES[:]
                     redo = None
@@ -942,7 +1049,7 @@ def run_case(rec, case: dict) -> None:  # noqa: ANN001, C901, PLR0912, PLR0915
                             pair = next(p for p in pairs if p[0] == target)
                             top, redo = merge_api(src, target, pair[1], pair[2], order)
                         else:
-                            top, _loader = load_once(placement, root, order, target)
+                            top, returned = load_once(placement, root, order, target, req)
                     except Exception as exc:  # noqa: BLE001
                         _WINDOW = None
                         tb = "".join(traceback.format_exception(type(exc), exc, exc.__traceback__))[-4000:]
@@ -951,12 +1058,19 @@ def run_case(rec, case: dict) -> None:  # noqa: ANN001, C901, PLR0912, PLR0915
                             if target is None or dotted == target:
                                 fid = fid or classify({"kind": "exception", "observed": f"{type(exc).__name__}: {exc}", "traceback": tb,
                                                        "path": dotted}, parsed[rk], parsed[sk], placement, dotted)
-                        rec.fail(case, f"exception while loading / merging ({placement}, order {order}): never raises, whatever the "
+                        rec.fail(case, f"exception while loading / merging ({placement}, {tag}): never raises, whatever the "
                                  "kinds", observed=f"{type(exc).__name__}: {exc}"[:500], expected="no exception", finding=fid,
                                  nontrivial=nt, tags=(placement,), tb=tb, tried=FINDINGS)
                         return
                     window, _WINDOW = _WINDOW, None
                     rec.count("alias_resolution_windows")
+                    if req is not None:
+                        rec.count("request_" + req["form"] + "_judged")
+                        want_path = requested_path(req)
+                        got_path = getattr(returned, "path", None)
+                        if got_path != want_path:
+                            judge.bad("request-returned-wrong-object", want_path, f"({tag}) load returned another object", got_path,
+                                      want_path)
                     states = alias_states(top)
                     these = [p for p in pairs if target is None or p[0] == target]
                     allowed = set()
@@ -972,10 +1086,10 @@ def run_case(rec, case: dict) -> None:  # noqa: ANN001, C901, PLR0912, PLR0915
                     for path, stub_side, target_path, flipped in window:
                         rec.count("aliases_state_checked")
                         if stub_side:
-                            judge.bad("stub-alias-resolved", path, f"(order {order}) resolve_target called on a stub-side import "
+                            judge.bad("stub-alias-resolved", path, f"({tag}) resolve_target called on a stub-side import "
                                       f"-> {target_path} inside merge_stubs", {"flipped_to_resolved": flipped}, "never")
                         elif path not in allowed:
-                            judge.bad("alias-resolved-by-merge", path, f"(order {order}) resolve_target called inside merge_stubs on "
+                            judge.bad("alias-resolved-by-merge", path, f"({tag}) resolve_target called inside merge_stubs on "
                                       "an import that has no same-named non-import stub member", {"flipped_to_resolved": flipped},
                                       sorted(allowed))
                         else:
@@ -983,7 +1097,7 @@ def run_case(rec, case: dict) -> None:  # noqa: ANN001, C901, PLR0912, PLR0915
                     for path, _resolved, stub_side in states:
                         rec.count("aliases_state_checked")
                         if stub_side and placement == "api" and _resolved:
-                            judge.bad("stub-alias-resolved", path, f"(order {order}) stub-side import resolved after merge_stubs",
+                            judge.bad("stub-alias-resolved", path, f"({tag}) stub-side import resolved after merge_stubs",
                                       True, False)
                     def judge_pairs(second_pass: bool = False) -> None:
                         for dotted, rk, sk in these:
@@ -993,13 +1107,13 @@ def run_case(rec, case: dict) -> None:  # noqa: ANN001, C901, PLR0912, PLR0915
                                 g = top.members.get(dotted.split(".", 1)[1])
                             if g is None or g.is_alias or not g.is_module or (dotted == top.path and str(g.filepath).endswith(".pyi")) \
                                     or (g is not top and str(g.filepath).endswith(".pyi")):
-                                judge.bad("runtime-module-lost", dotted, f"(order {order}) the merged module is missing from the tree "
+                                judge.bad("runtime-module-lost", dotted, f"({tag}) the merged module is missing from the tree "
                                           "or is the stubs module", None if g is None else str(g.filepath), "the runtime module")
                             else:
                                 try:
                                     judge.container(dotted, g, parsed[rk], parsed[sk])
                                 except Exception as exc:  # noqa: BLE001
-                                    judge.bad("malformed-tree", dotted, f"(order {order}) the merged tree cannot be read: "
+                                    judge.bad("malformed-tree", dotted, f"({tag}) the merged tree cannot be read: "
                                               f"{type(exc).__name__}: {exc}"[:300], None, "a well-formed tree")
                             for p in judge.problems[before:]:
                                 p["order"] = order
@@ -1007,6 +1121,9 @@ def run_case(rec, case: dict) -> None:  # noqa: ANN001, C901, PLR0912, PLR0915
                                 p["merged_twice"] = second_pass or dotted in twice
                                 if second_pass:
                                     p["what"] = "(after merging the same pair a second time) " + p["what"]
+                                if req is not None:
+                                    p["request"] = req
+                                    p["what"] = f"(package requested as {req['form']} {req['arg']!r}) " + p["what"]
 
                     judge_pairs()
                     if impl_loaded:
@@ -1020,7 +1137,7 @@ def run_case(rec, case: dict) -> None:  # noqa: ANN001, C901, PLR0912, PLR0915
                                         if t.startswith("pkg._impl.")}
                         g = top.members.get("_impl")
                         if g is None or g.is_alias or not g.is_module:
-                            judge.bad("runtime-module-lost", "pkg._impl", f"(order {order}) the module without stubs is missing",
+                            judge.bad("runtime-module-lost", "pkg._impl", f"({tag}) the module without stubs is missing",
                                       None if g is None else repr(g), "the runtime module")
                         else:
                             rec.count("bystander_modules_judged")
@@ -1028,7 +1145,7 @@ def run_case(rec, case: dict) -> None:  # noqa: ANN001, C901, PLR0912, PLR0915
                             try:
                                 judge.container("pkg._impl", g, parsed["I"], EMPTY, ignore=frozenset(touched))
                             except Exception as exc:  # noqa: BLE001
-                                judge.bad("malformed-tree", "pkg._impl", f"(order {order}) the tree cannot be read: "
+                                judge.bad("malformed-tree", "pkg._impl", f"({tag}) the tree cannot be read: "
                                           f"{type(exc).__name__}: {exc}"[:300], None, "a well-formed tree")
                         for p in judge.problems[before:]:
                             p["order"] = order
@@ -1042,25 +1159,36 @@ def run_case(rec, case: dict) -> None:  # noqa: ANN001, C901, PLR0912, PLR0915
                         try:
                             redo()
                         except Exception as exc:  # noqa: BLE001
-                            judge.bad("second-merge-raised", target, f"(order {order}) merging the same pair a second time raised",
+                            judge.bad("second-merge-raised", target, f"({tag}) merging the same pair a second time raised",
                                       f"{type(exc).__name__}: {exc}"[:300], "no exception")
                         else:
                             judge_pairs(second_pass=True)
                             if top.as_json(full=False, sort_keys=True) != dumps[-1]:
-                                judge.bad("merge-not-idempotent", target, f"(order {order}) merging the same pair a second time "
+                                judge.bad("merge-not-idempotent", target, f"({tag}) merging the same pair a second time "
                                           "changes the canonical JSON", None, "identical canonical JSON")
                         for p in judge.problems[before:]:
                             p.setdefault("order", order)
                             p.setdefault("pair", [pair[1], pair[2]])
                             p.setdefault("merged_twice", True)
                 rec.count("orders_compared")
-                if dumps[0] != dumps[1]:
-                    from vf.checks.c14 import _first_diff
+                for i in range(1, len(dumps)):
+                    if i > 1:
+                        rec.count("request_forms_compared")
+                    if dumps[0] != dumps[i]:
+                        from vf.checks.c14 import _first_diff
 
-                    d = _first_diff(json.loads(dumps[0]), json.loads(dumps[1]))
-                    judge.bad("order-dependence", target or "pkg", "the two discovery orders give different trees",
-                              {"at": d[0], "runtime_first": json.dumps(d[1], sort_keys=True)[:300],
-                               "stubs_first": json.dumps(d[2], sort_keys=True)[:300]} if d else None, "identical canonical JSON")
+                        d = _first_diff(json.loads(dumps[0]), json.loads(dumps[i]))
+                        if i == 1:
+                            judge.bad("order-dependence", target or "pkg", "the two discovery orders give different trees",
+                                      {"at": d[0], "runtime_first": json.dumps(d[1], sort_keys=True)[:300],
+                                       "stubs_first": json.dumps(d[2], sort_keys=True)[:300]} if d else None, "identical canonical JSON")
+                        else:
+                            q = runs[i][1]
+                            judge.bad("request-form-dependence", target or "pkg", f"the package requested as {q['form']} {q['arg']!r} "
+                                      f"(order {runs[i][0]}) differs from the package requested by its name",
+                                      {"at": d[0], "by_name": json.dumps(d[1], sort_keys=True)[:300],
+                                       "by_this_request": json.dumps(d[2], sort_keys=True)[:300]} if d else None,
+                                      "identical canonical JSON")
             rec.count("placements_judged")
             for k in PAIRS_ORDERED:
                 rec.count("listings_with_py_pyi_pair_" + k, PAIRS_ORDERED[k])
@@ -1126,7 +1254,7 @@ def run_shard(spec: dict, rec) -> None:  # noqa: ANN001
         r1, s1 = gen_pair(rng, "mod")
         src = {"R0": r0, "S0": s0, "R1": r1, "S1": s1, "I": gen_impl(rng)}
         for placement in PLACEMENTS:
-            run_case(rec, {"placement": placement, "sources": src})
+            run_case(rec, {"placement": placement, "sources": src, "requests": gen_requests(rng, placement, src)})
 
 
 def run_replay(inp: dict, rec) -> None:  # noqa: ANN001
